@@ -284,3 +284,68 @@ def monitorFor3 (prop : String) : Hist → Option String :=
   | p => monitorFor2 p
 
 end Httpcache.Driver
+
+namespace Httpcache.Driver
+open Httpcache
+
+/-! ### C05 -/
+def hopNames (hd : Header) : List Str :=
+  Spec.hopByHopFixed ++ (((Spec.listMembers hd sConnection)).map canonicalHeaderKey)
+
+def cacheOwn : List Str := [sAge, sStatusHeader, sFromCache]
+
+/-- the origin's end-to-end fields, as a canonical list -/
+def endToEnd (hd : Header) : Header :=
+  let hop := hopNames hd
+  Header.canon (hd.filter fun p => !hop.contains p.1 && !cacheOwn.contains p.1)
+
+def monC05 (h : Hist) : Option String :=
+  first? [
+    -- nothing hop-by-hop is ever stored
+    h.evs.findSome? fun
+      | .store s => match s.op, s.val with
+        | "set", .ent en _ =>
+          (match tokenOf en.resp.body with
+          | some (n, k) => (h.reply n k).bind fun rp =>
+              -- the codec's own Connection: close aside, no hop-by-hop field of the origin reply is in the entry
+              ((hopNames rp.resp.header).find? fun f => f ≠ sConnection && Header.has en.resp.header f).map fun f =>
+                s!"exchange {s.n}: hop-by-hop field {shw f} stored with the response of exchange {n}"
+          | none => none)
+        | _, _ => none
+      | _ => none,
+    h.reqs.findSome? fun ri => do
+      let x ← h.ex ri
+      if x.res.kind != "resp" then none else
+      let (m, k) ← x.token
+      let rp ← h.reply m k
+      if x.res.bodyErr && rp.bodyFail < 0 then some s!"exchange {ri.n}: body of the response of exchange {m} could not be read by the caller" else
+      if rp.bodyFail ≥ 0 then none else
+      if x.res.body ≠ rp.resp.body then
+        some s!"exchange {ri.n}: body differs from what the origin sent in exchange {m} ({x.res.body.length} vs {rp.resp.body.length} bytes shown)"
+      else if x.res.status ≠ rp.resp.status then some s!"exchange {ri.n}: status {x.res.status}, origin sent {rp.resp.status}"
+      else if m = ri.n then none   -- forwarded on a miss: the body (and status) is what is required
+      else
+        -- served from the store: every end-to-end field of the origin response, nothing else but the cache's own
+        let freshened := h.reqs.any fun rj => rj.n > m && rj.n ≤ ri.n && (["fg", "bg"].any fun s =>
+          (h.calls rj.n s).any fun c => c.outcome == "resp" && (match h.reply rj.n c.k with | some r2 => r2.resp.status = 304 | none => false))
+        if freshened then none else
+        let want := endToEnd rp.resp.header
+        let got := endToEnd x.res.hdr
+        let dateSynth := !(Spec.httpTime h.glue.parseTime rp.resp.header sDate).isSome
+        -- fields named by a qualified no-cache are withheld from unvalidated responses (C02)
+        let withheld := (Spec.noCacheFields Spec.rfc rp.resp.header).map canonicalHeaderKey
+        let want := want.filter fun p => !withheld.contains p.1
+        let want' := if dateSynth then want.filter (·.1 ≠ sDate) else want
+        let got' := if dateSynth then got.filter (·.1 ≠ sDate) else got
+        if want' = got' then
+          (match (hopNames rp.resp.header).find? (fun f => Header.has x.res.hdr f) with
+          | some f => some s!"exchange {ri.n}: hop-by-hop field {shw f} of the origin response replayed from the store"
+          | none => none)
+        else some s!"exchange {ri.n}: end-to-end fields served [{showHdrs got'}] differ from the origin's [{showHdrs want'}]" ]
+
+def monitorFor4 (prop : String) : Hist → Option String :=
+  match prop with
+  | "C05" => monC05
+  | p => monitorFor3 p
+
+end Httpcache.Driver
